@@ -1186,6 +1186,16 @@ KERNELS = [
            perturb=[("summary_streams_ignored", {"detector": "is_ppt_encrypted"}),
                     ("any_stream_counts", {"detector": "is_ooxml_encrypted"})],
            stubs=[_OLE_STUB], symbolic=["isOleFile", "exists(name) for the five names and five unrelated names"]),
+    # the empty-user-password half of the property rests on the built-in AES; its padding /
+    # stream-wrapper kernels are shared with C20 (same harness functions)
+    Kernel("K6", "built-in AES stream wrapper: padding removed exactly (shared with C20/K4p, K4w)",
+           lambda ctx: (__import__("vf.props.c20", fromlist=["x"]).k4_padding(ctx) if ctx.params.get("which") == "pad"
+                        else __import__("vf.props.c20", fromlist=["x"]).k4_wrapper(ctx)),
+           targets=lambda: __import__("vf.props.c20", fromlist=["x"])._targets_modes(),
+           parts=lambda tier: [{"which": "pad", "max_len": 33 if tier == "quick" else 64},
+                               {"which": "wrap", "max_len": 33 if tier == "quick" else 64}],
+           symbolic=["content bytes", "iv"], choices=["length"], core=False,
+           stubs=["block cipher -> uninterpreted keyed bijection", "secrets.token_bytes -> arbitrary 16 bytes"]),
 ]
 
 META = {
